@@ -20,13 +20,12 @@ for d in /verif/seeded/$pat/; do
   git checkout -q -- . ; git clean -fdq -e mutants
   how=exact
   if ! git apply mutants/$k/patch.diff 2>>$log; then
-    how=fuzz
-    if ! patch -p1 -s --fuzz=3 < mutants/$k/patch.diff >>$log 2>&1; then
-      git checkout -q -- . ; git clean -fdq -e mutants; find . -name '*.rej' -o -name '*.orig' | xargs rm -f
+    if [ -f $d/patch.rebased.diff ] && git apply $d/patch.rebased.diff 2>>$log; then
       how=rebased
-      if [ -f $d/patch.rebased.diff ] && git apply $d/patch.rebased.diff 2>>$log; then :; else
-        echo "RESULT $id DOES-NOT-APPLY at $head"; cd /; git -C /repo worktree remove --force $W; continue
-      fi
+    elif patch -p1 -s --fuzz=3 < mutants/$k/patch.diff >>$log 2>&1; then
+      how=fuzz
+    else
+      echo "RESULT $id DOES-NOT-APPLY at $head"; cd /; git -C /repo worktree remove --force $W; continue
     fi
     find . -name '*.rej' -o -name '*.orig' | xargs rm -f
   fi
